@@ -82,6 +82,9 @@ def run(ctx):
     open(mixed, "w").write("\n".join(lines[::step][:want]) + "\n")
     jobs.append(job("mixed", mixed, ["--leaf-cycle", "%d,%d,%d,%d,64,%d" % (MiB, MiB + 7, 2 * MiB, 2 * MiB + MiB // 2, 3 * MiB - 1),
                                      "--style", "read", "--reads", "light", "--boundary"]))
+    # hash verification switched off (an option of the store): reads must return the stored bytes all the same;
+    # leaves of 96 KiB and 100 000 bytes are copied in more than two 32 KiB pieces by the streaming paths
+    jobs.append(job("noverify", mixed, ["--leaf-cycle", "98304,100000,64", "--noverify", "--style", "writeto", "--reads", "full"]))
     results = vlib.parallel(jobs, max_workers=8)
     tot = vlib.account(ctx, results)
     ctx.notes.update(behaviours_replayed=tot["behaviours"], steps_compared=tot["steps"],
